@@ -47,6 +47,12 @@ def gen_cases(seed, tier):
         c = {"fam": fam, "spec": dom["spec"], "rows": dom["rows"], "info": dom["info"], "k": dom["k"],
              "seed": int(rng.integers(0, 2 ** 31)), "N": 20000 if quick else 150000}
         c.update(kw)
+        if "polyhedron" in geo.spec_ops(dom["spec"]):
+            # trimesh membership tests cost ~1 ms per point: smaller samples, no single-point call series
+            c["N"] = min(c["N"], 4000 if quick else 20000)
+            if c.get("mode") == "small":
+                c["nsmall"] = 10
+                c["N"] = 2500
         cases.append(c)
 
     n_prim = 32 if quick else 400
@@ -105,9 +111,23 @@ def gen_cases(seed, tier):
         dom = {"spec": spec, "rows": {"t": [[float(np.float32(v))] for v in tv]}, "k": k,
                "info": {"kind": "bool", "dim": 2, "dep": True, "relations": ["union:disjoint!", "ratio"], "desc": geo.ref(spec).desc() + "~ratio"}}
         add("comp", dom, target="interior", mode=str(rng.choice(["big", "small"])), nsmall=10)
+    for i in range(6 if quick else 60):
+        # non-convex polygons with a slanted notch: Delaunay triangles of the vertex set straddle the boundary
+        x0, y0 = rng.uniform(-2, 2, 2)
+        w, h = rng.uniform(4, 7), rng.uniform(3, 5)
+        a, b = rng.uniform(0.55, 0.75) * w, rng.uniform(0.1, 0.25) * w
+        V = [[x0, y0], [x0 + w, y0], [x0 + w, y0 + h], [x0 + a + 0.15 * w, y0 + h], [x0 + b, y0 + rng.uniform(0.1, 0.25) * h],
+             [x0 + a - 0.15 * w, y0 + h], [x0, y0 + h]]
+        if rng.random() < 0.5:
+            V = V[::-1]
+        spec = {"prim": "polygon", "var": "x", "vertices": [[float(p), float(q)] for p, q in V]}
+        kk_ = int(rng.choice([0, 0, 2]))
+        dom = {"spec": spec, "rows": gen_geo.param_rows(rng, kk_), "k": kk_,
+               "info": {"kind": "prim", "dim": 2, "dep": False, "relations": ["notch"], "desc": "G~notch"}}
+        add("prim", dom, target="interior", mode="big", nsmall=10)
     for i in range(8 if quick else 80):
         dom = gen_geo.gen_domain(rng, max_depth=1, allow=("bool", "prim"), k=0, dep=False)
-        add("gauss", dom, std_rel=float(rng.uniform(0.15, 0.8)))
+        add("gauss", dom, std_rel=float(rng.uniform(0.15, 0.8)), mean_outside=bool(i % 2 == 1))
     for i in range(8 if quick else 80):
         # LHS on boxes whose extent depends on the parameter, several rows: one point per slab of the row's own box
         d = int(rng.choice([1, 2]))
@@ -166,7 +186,7 @@ def draw(D, node, target, mode, N, nsmall, Pp, env, k, seed):
         take(Dt.sample_random_uniform(n=N, params=Pp), N)
         probes.end_call()
     elif mode == "small":
-        total = min(N, (3000 if nsmall == 1 else 8000) if N <= 20000 else (6000 if nsmall == 1 else 12000) * max(1, N // 150000))
+        total = min(N, (1600 if nsmall == 1 else (3200 if nsmall == 2 else 8000)) if N <= 20000 else (6000 if nsmall == 1 else 12000) * max(1, N // 150000))
         for _ in range(max(1, total // nsmall)):
             probes.begin_call()
             take(Dt.sample_random_uniform(n=nsmall, params=Pp), nsmall)
@@ -233,11 +253,14 @@ def _leaf_boundary_points(node, env_row, M, rng):
         v /= np.linalg.norm(v, axis=1, keepdims=True)
         return c[0] + r[0] * v
     if isinstance(node, geo.Polygonal):
-        V = node.verts(env_row, 1)[0]
-        E = np.roll(V, -1, 0) - V
+        A, E = [], []
+        for V in [node.verts(env_row, 1)[0]] + [H[0] for H in node.rings()]:
+            A.append(V)
+            E.append(np.roll(V, -1, 0) - V)
+        A, E = np.concatenate(A, 0), np.concatenate(E, 0)
         ln = np.linalg.norm(E, axis=1)
-        e = rng.choice(len(V), size=M, p=ln / ln.sum())
-        return V[e] + rng.random((M, 1)) * E[e]
+        e = rng.choice(len(A), size=M, p=ln / ln.sum())
+        return A[e] + rng.random((M, 1)) * E[e]
     if isinstance(node, geo.Polyhedron):
         f = rng.choice(len(node.F), size=M, p=node.area / node.area.sum())
         u, v = rng.random(M), rng.random(M)
@@ -449,6 +472,14 @@ def run_gauss(case, res):
     R0, box = ref_interior(node, {}, 2000, rng)
     mean = R0[int(rng.integers(0, len(R0)))]
     std = case["std_rel"] * float((box[1::2] - box[0::2]).max()) * 0.5
+    if case.get("mean_outside"):
+        # a mean outside the bounding box is legal (only its dimension is checked): the law is still the normal law with
+        # this mean conditioned on the domain
+        ax = int(rng.integers(0, node.dim()))
+        side = int(rng.choice([0, 1]))
+        mean = mean.copy()
+        mean[ax] = box[2 * ax + side] + (1 if side else -1) * rng.uniform(0.3, 0.9) * std
+        mech["mean_outside"] = True
     d = node.dim()
 
     def one(N, seed):
@@ -467,8 +498,9 @@ def run_gauss(case, res):
             have += int(keep.sum())
         Rr = np.concatenate(got, 0)[:N]
         # cells: box around the mean +- 3 std intersected with the hull box
-        lo = np.maximum(box[0::2], mean - 3 * std)
-        hi = np.minimum(box[1::2], mean + 3 * std)
+        lo = np.maximum(box[0::2], mean - 3.5 * std)
+        hi = np.minimum(box[1::2], mean + 3.5 * std)
+        hi = np.maximum(hi, lo + 1e-6)
         bx = np.stack([lo, hi], 1).reshape(-1)
         g = {1: 24, 2: 8, 3: 4}[d]
         stat, dof, p = stats.chi2_two_sample(stats.box_cells(X, bx, g), stats.box_cells(Rr, bx, g))
